@@ -197,6 +197,10 @@ impl Property for C08 {
                 // mostly a few flash periods; now and then past 256 frames (a frame counter kept in a byte)
                 let long = rng.chance(1, 8);
                 sc.set("frames", if long { rng.range(262, 300) } else if tier == Tier::Quick { rng.range(50, 60) } else { rng.range(50, 120) });
+                // thorough tier: one run past 65536 frames (a 16-bit frame counter); only its last frames are observed
+                if tier == Tier::Thorough && idx == 5 {
+                    sc.set("frames", 65_536 + rng.range(40, 120));
+                }
                 sc.set("shadow", (m128 && rng.bool()) as i64);
                 sc.set("warm", rng.range(0, 40));
             }
@@ -502,7 +506,21 @@ impl Property for C08 {
                 }
                 let warm = sc.get("warm").clamp(0, 100) as usize;
                 run_frames(&mut e, warm + 2).map_err(|x| Fail::new("C08.run", "", x))?;
-                let n = sc.get("frames").clamp(40, 700) as usize;
+                let n = sc.get("frames").clamp(40, 70_000) as usize;
+                // very long runs: everything but the last 100 frames passes unobserved, in large host calls
+                let n = if n > 1000 {
+                    ctx.probe("flash_after_65536_frames");
+                    let mut left = n - 100;
+                    let mut r0 = Rng::new(1);
+                    while left > 0 {
+                        let k = left.min(500);
+                        drive(&mut e, Slice::Count(k), &mut r0).map_err(|x| Fail::new("C08.run", "", x))?;
+                        left -= k;
+                    }
+                    100
+                } else {
+                    n
+                };
                 let mut phases = vec![];
                 for _ in 0..n {
                     run_frames(&mut e, 1).map_err(|x| Fail::new("C08.run", "", x))?;
